@@ -43,11 +43,8 @@ def pair_or_none(t):
     return pair
 
 
-def build(ex):
-    workers.install(ex)
+def decode_lemmas(ex, prop='C01'):
     lemmas = []
-
-    # ---------------------------------------------------------------- L1 decode
     def decode_setup(ex_, env):
         self_v = ex_.alloc(HObj(ex_.repo.cls(TW), {}))
         r = ex_.fresh('r', Val)
@@ -75,9 +72,18 @@ def build(ex):
                      'has_error': 'has_error == (None if _get_result() is None else not flag)'}[which]
         return f
     for which in ('result', 'error', 'has_error'):
-        lemmas.append((Contract(W + '.' + which, lid=f'L1-{which}', name=f'C01.L1 {which} decodes the outcome pair; never raises',
+        lemmas.append((Contract(W + '.' + which, lid=f'L1-{which}', name=f'{prop}.L1 {which} decodes the outcome pair; never raises',
                                 params={'self': ('const', None)}, self_class=TW, setup=decode_setup,
                                 ensures=[decode_spec(which)], raises={}, raises_only=[], modifies=[]), None))
+
+    return lemmas
+
+
+def build(ex):
+    workers.install(ex)
+    lemmas = []
+
+    lemmas += decode_lemmas(ex)
 
     # ---------------------------------------------------------------- L2 process: _get_result on a dead child, any pipe content
     def dead_any(ex_, env):
